@@ -306,7 +306,7 @@ func c20Run(m *errMonitor, in c20Input) {
 			regReset()
 			defer regReset()
 			for _, r := range c18Standard {
-				validator.ReplaceRule(r.Name, r.RuleFunc)
+				validator.ReplaceRule(r.Name, r.RuleFunc) // (inside the step budget of this case)
 			}
 			if errs := validator.Validate(kitSchema(in.Schema), q); len(errs) > 0 {
 				err = errs
